@@ -21,7 +21,7 @@ PROP = dict(
              "or NewRangedPool on arbitrary reserves (one-sided, in-range ratio, arbitrary), then 3-15 deposits/withdrawals, with pool.Price() after every step and BuyAmountOver/SellAmountUnder at prices at, outside and inside the range; "
              "35% of the cases are EXACTLY BALANCED offers: the counterpart of x (and of y) at the initial price is computed with the real amm.CreateRangedPool (the other coin abundant) and the offers "
              "(x, cy-1), (x, cy), (x, cy+1), (cx-1, y), (cx, y), (cx+1, y) are made for x, y and neighbouring amounts, initial price strictly inside / one step from a bound / at min / at max; the extracted "
-             "holds_C06_create judges accepted <= offered for both coins on every returned pool and ranged_roots_ok (the hypothesis of c06_create_ranged_bounded_partial) is evaluated on every triple; "
+             "holds_C06_create judges accepted <= offered for both coins on every returned pool and ranged_roots_ok (proved from the validation: c06_validated_roots_ok) is evaluated on every triple; "
              "the first four cases are the fixed witnesses of C06-F1/C06-F2; non-trivial = a price was observed. distinct by digest of the case's inputs and operations. "
              "liquidity-keeper: 70% of the pairs get one or two ranged pools through the REAL MsgCreateRangedPool whose DepositCoins are an exactly balanced offer (or one unit off) for a tick-aligned triple, "
              "the creator holding far more than offered: holds_C06_create judges the amm amounts, the coins that LEFT THE CREATOR'S WALLET per denom (creation fee excluded) and the coins the new reserve received against DepositCoins; "
@@ -35,12 +35,12 @@ PROP = dict(
         modelled=["the reserve/supply threading of keeper.ExecuteDepositRequest/ExecuteWithdrawRequest around the real amm calls (bank, escrow and request status are C04's Liquidity model)",
                   "ApproxSqrt/Power intermediate overflow panics inside the Newton loop (sizes are bounded by the admissible price range; never observed)"],
         assumptions=["amounts non-negative, 0 < pc <= ps for a withdrawal (the shares were escrowed from the withdrawer), fee rate in [0,1]",
-                     "c06_create_ranged_bounded_partial assumes 0 < sqrt(min) <= sqrt(initial) <= sqrt(max) for the Newton roots the call computes (ranged_roots_ok; no monotonicity lemma for utils.DecApproxSqrt is proved); the runner reports a creation on which it is false",
+                     "c06_create_ranged_bounded is unconditional: 0 < sqrt(min) <= sqrt(initial) <= sqrt(max) for the Newton roots the call computes (ranged_roots_ok) is PROVED from ValidateRangedPoolParams (Proofs/SqrtProofs.v: on (0, 10^20] the model of utils.DecApproxSqrt leaves its loop through the delta test, is positive, within one unit of the exact root and exactly weakly monotone); the runner still evaluates ranged_roots_ok on every replayed creation",
                      "price clause for the implemented fixed-point pipeline is measured, not proved (c06_ranged_price_ideal_partial); excursions above 10^-6 of the bound outside the two listed classes are violations"],
     )
 
 MANIFEST = dict(
-    level_text="For all non-negative integers (no size bound: the SafeMath overflow fallback is part of the model) amm.Deposit never accepts more than offered and mints shares at no better than reserves per share (exact against the offer, slack rx*ps*10^-18 against the accepted amounts, shown attained), amm.Withdraw never returns more than the pro-rata share reduced by the fee (exact), the last shares redeem the entire reserves, neither call panics on a live pool; lifted by induction to every finite history of deposits and withdrawals on a basic or ranged pool: reserves per share never fall below (1-10^-18)^n >= 1-n*10^-18 of their initial value, n = number of deposits. Creating a ranged pool never accepts more of either coin than offered, for all offers and price triples on which CreateRangedPool returns a pool (hypothesis: the three computed Newton square roots are positive and ordered - executable, evaluated on every replayed creation; amm.CreateRangedPool and NewRangedPool are regenerated from the source and proved equal to the model for all inputs). Ranged order-book clamps never exceed the reserves. Through the keeper: a pool message that carries any pool coin other than the named pool's own (in particular the shares of another app's pool with the same pool id), or deposit coins outside the pool's pair, is rejected and changes nothing (model theorem; the keeper workload checks it on the real msg server for every pool after every step). The ranged-pool price clause is proved only for exact arithmetic (idealised square roots, over Q); for the code it is refuted by two witnesses (fresh pool 82% below min through the single-asset shortcut of DeriveTranslation; single-asset pool 15% above max) listed as known findings, and otherwise measured on every run.",
+    level_text="For all non-negative integers (no size bound: the SafeMath overflow fallback is part of the model) amm.Deposit never accepts more than offered and mints shares at no better than reserves per share (exact against the offer, slack rx*ps*10^-18 against the accepted amounts, shown attained), amm.Withdraw never returns more than the pro-rata share reduced by the fee (exact), the last shares redeem the entire reserves, neither call panics on a live pool; lifted by induction to every finite history of deposits and withdrawals on a basic or ranged pool: reserves per share never fall below (1-10^-18)^n >= 1-n*10^-18 of their initial value, n = number of deposits. Creating a ranged pool never accepts more of either coin than offered, for all offers and price triples on which CreateRangedPool returns a pool (no hypothesis: that the three computed Newton square roots are positive and ordered is proved from ValidateRangedPoolParams - ApproxSqrt is exactly weakly monotone on (0, 10^20] - and still evaluated on every replayed creation; amm.CreateRangedPool and NewRangedPool are regenerated from the source and proved equal to the model for all inputs). Ranged order-book clamps never exceed the reserves. Through the keeper: a pool message that carries any pool coin other than the named pool's own (in particular the shares of another app's pool with the same pool id), or deposit coins outside the pool's pair, is rejected and changes nothing (model theorem; the keeper workload checks it on the real msg server for every pool after every step). The ranged-pool price clause is proved only for exact arithmetic (idealised square roots, over Q); for the code it is refuted by two witnesses (fresh pool 82% below min through the single-asset shortcut of DeriveTranslation; single-asset pool 15% above max) listed as known findings, and otherwise measured on every run.",
     design_ref="DESIGN.md section 4 C06",
     level_note="Trusted: Coq kernel, extraction (ExtrOcamlBasic), OCaml runner, Go harness; the model of cosmossdk.io/math (Lib/DecArith) is tied by the DEC correspondence target. No axioms (every theorem Closed under the global context). The sequence workload threads reserves through the real amm calls itself; the keeper workload observes reserves and supply on the real keeper (swaps against a pool enter as the recorded flows; they are C05's subject).",
     technique="Coq proof (algebraic laws over Z with exact sdk.Dec rounding, induction over operation histories, idealised curve lemma over Q) + model/implementation correspondence run of the real amm package with the extracted predicates judging the implementation's outputs",
